@@ -2,9 +2,9 @@
 BASELINE = "cd /repo && /venv/bin/python -m pytest -ra -q -p no:cacheprovider --timeout=900 --continue-on-collection-errors"
 
 ENGINES = [
-    {"name": "sqlsym", "path": "vt/sqlsym/", "serves_properties": ["C01", "C03"],
+    {"name": "sqlsym", "path": "vt/sqlsym/", "serves_properties": ["C01", "C03", "C04", "C05", "C06", "C07", "C10", "C41"],
      "kind_free_text": "MySQL-subset parser + symbolic/concrete interpreter over bounded key spaces (z3 terms, no path forking); routines read from the migrations in build.yaml order"},
-    {"name": "glue", "path": "vt/glue.py", "serves_properties": ["C01", "C03"],
+    {"name": "glue", "path": "vt/glue.py", "serves_properties": ["C01", "C03", "C04", "C05", "C06", "C07", "C10", "C41"],
      "kind_free_text": "runs the real front-end/driver Python natively on the symbolic database with proxy values; DFS over branch decisions with z3 feasibility; merges paths by ite"},
     {"name": "chrun", "path": "vt/chrun.py", "serves_properties": ["C19"],
      "kind_free_text": "CrossHair (symbolic execution of the real Python with z3), one process per condition; only 'Confirmed over all paths' discharges"},
@@ -70,6 +70,35 @@ CHECKS["C03"] = dict(
          "only mark_job_complete may carry a NULL start; permissive reading of the 'unless' clause (see DESIGN 6/C03).",
     technique="z3 LIA inductive step over symbolically executed SQL triggers/procedures and the real heartbeat handler",
     design_ref="6/C03")
+
+BMC_LEVEL = ("Bounded model checking decided by z3: from the EMPTY database the real front-end Python (run natively through "
+             "the path-exploring glue layer) and the real stored procedures/triggers (parsed from the migrations) are executed "
+             "on a batch whose shape (group tree, job->group, parents, always_run, cores, tokens, times) is symbolic; every "
+             "sequence of 2 operation kinds with symbolic arguments plus named deeper scenarios (up to 5 operations) is one "
+             "query; counterexamples are replayed concretely on the real Python + concrete emulator. Bounds: <=3-4 jobs, <=3 "
+             "groups, 2 updates, <=2 instances, 2 attempts/job, 2 tokens. Histories beyond the depth are outside the claim. ")
+for _pid, _what, _tech in [
+    ("C04", "Asserted after every step: each job's (old,new) state is an allowed lifecycle edge, rows never vanish, and the "
+            "completed/succeeded/failed/cancelled tallies of every group equal the terminal jobs in its subtree.", "lifecycle edges + tallies"),
+    ("C05", "Asserted after every step: Ready/Creating/Running only with all parents terminal; n_pending_parents = non-terminal "
+            "parents; cancelled mark iff a terminal parent did not succeed; cancelled non-always-run jobs never Creating/Running.",
+     "dependency gating"),
+    ("C06", "Asserted after every step: job_groups/batches state complete iff every committed job in the subtree is terminal, "
+            "n_jobs equals that count, tallies equal the recount.", "completion state"),
+    ("C07", "Asserted after every step: no non-always-run job of a previously cancelled subtree moves into Creating/Running; no "
+            "job/group row appears under a cancelled group and bunches are all-or-nothing; repeated cancel changes no table; jobs "
+            "outside the subtree keep their cancelled status; schedule/creating/started always answer with a result row.",
+     "cancellation confinement"),
+    ("C10", "Asserted after every step: live instance free cores = cores - cores of unended attempts on it; inactive => all free.",
+     "free-core accounting"),
+    ("C41", "Asserted after every step (update 2 late/never, and update 1 itself uncommitted): uncommitted jobs are not selectable "
+            "by the scheduler queries, stay in their inserted state, are not counted in user counters, and n_jobs/completion/"
+            "tallies are functions of committed jobs only. Two genuine defects are listed as known findings.", "inertness of uncommitted updates"),
+]:
+    CHECKS[_pid] = dict(level="model_checking", text=BMC_LEVEL + _what, note=SQL_NOTE + " Scheduler enabledness is hand-transcribed "
+                        "from pool.py's WHERE clauses; instances are set up as rows.",
+                        technique="z3 bounded model checking of the real SQL routines + front-end Python from the empty database (" + _tech + ")",
+                        design_ref="6/" + _pid + ", 3.1")
 
 NOT_APPLICABLE = {
     "C37": "Scala floating-point statistics calling Apache commons-math (gamma/beta, root finding); no scalac/JVM build of "
